@@ -68,7 +68,15 @@ except RuntimeError as ex:
 # then they also will have identical compressed weights.
 WeightCompressionConfig = namedtuple(
     "WeightCompressionConfig",
-    ["npu_block_type", "ofm_block_depth", "ofm_depth_step", "dilation", "weight_value_id"],
+    [
+        "npu_block_type",
+        "ofm_block_depth",
+        "ofm_depth_step",
+        "dilation",
+        "weight_value_id",
+        "ifm_bitdepth",
+        "flipped",
+    ],
 )
 
 ScaleCompressionConfig = namedtuple("ScaleCompressionConfig", ["scale_value_id", "ifm_scale", "ofm_scale"])
@@ -132,11 +140,17 @@ class CompressedWeightCache:
         return cache_obj[1] if cache_obj else None
 
 
-def create_weight_compression_config(weight_tens, npu_block_type, ofm_block_depth, ofm_depth_step, dilation):
+def create_weight_compression_config(
+    weight_tens, npu_block_type, ofm_block_depth, ofm_depth_step, dilation, ifm_bitdepth=None, flipped=False
+):
     # Note: for an ofm block only its depth is used in weight compression.
     # And block depth > ofm depth gives same result as block depth == ofm depth
+    # The IFM bit depth (it selects the block traversal) and the transpose convolution weight flip
+    # also change the encoding, so they are part of the key
     block_depth = min(ofm_block_depth, weight_tens.values.shape[-1])
-    return WeightCompressionConfig(npu_block_type, block_depth, ofm_depth_step, dilation, weight_tens.value_id)
+    return WeightCompressionConfig(
+        npu_block_type, block_depth, ofm_depth_step, dilation, weight_tens.value_id, ifm_bitdepth, flipped
+    )
 
 
 def encode_weights(
@@ -331,7 +345,13 @@ def encode_weight_and_scale_tensor(
     ofm_scale = scale_tens and _get_output_quantization(scale_tens.consumer_list[0]).scale_f32
 
     wcc = create_weight_compression_config(
-        weight_tens, npu_block_type, block_config.ofm_block.depth, hash(str(depth_offsets)), kernel.dilation
+        weight_tens,
+        npu_block_type,
+        block_config.ofm_block.depth,
+        hash(str(depth_offsets)),
+        kernel.dilation,
+        op.inputs[0].dtype.size_in_bits(),
+        op.type == Op.Conv2DBackpropInputSwitchedBias,
     )
 
     scc = ScaleCompressionConfig(scale_tens and scale_tens.value_id, ifm_scale, ofm_scale)
